@@ -811,8 +811,20 @@ func (d *Downloader) fetchHeaders(p *peerConnection, from, height, firstNoneAc u
 
 			// If we received a skeleton batch, resolve internals concurrently
 			if skeleton {
+				if len(headers) > int(MaxSkeletonSize) {
+					p.log.Debug("Skeleton reply longer than requested", "headers", len(headers))
+					return errBadPeer
+				}
 				shs := make([]*SkeletonHeader, len(headers))
 				for i, h := range headers {
+					// The skeleton was requested at fixed positions (see getHeaders). The numbers in the
+					// reply size and index the result buffer (queue.ScheduleSkeleton, queue.DeliverHeaders):
+					// they must be the requested ones, not whatever the peer sends.
+					want := from + uint64(MaxHeaderFetch) - 1 + uint64(i)*uint64(MaxHeaderFetch)
+					if !h.Number.IsUint64() || h.Number.Uint64() != want {
+						p.log.Debug("Skeleton header broke chain ordering", "index", i, "requested", want, "received", h.Number)
+						return errInvalidChain
+					}
 					shs[i] = &SkeletonHeader{h.Number.Uint64(), h.Hash()}
 				}
 				filled, proced, err := d.fillHeaderSkeleton(from, shs, false)
